@@ -34,12 +34,12 @@ int main(void)
 #endif
   uint8_t type[2] = { 'A', 0 }; msg_init(type, 1);
   vf_msg_set_compids(&the_msg, msg_s, MNS, msg_t, MNT);
+  for (int i = 0; i < 2; i++) { m_sci[i] = msg_s[i]; m_tci[i] = msg_t[i]; } m_sci_n = MNS; m_tci_n = MNT;     /* the same CompIDs through the copying accessors */
   m_is_admin = 1; m_auth = nondet_bool();
   m_has_reset = nondet_bool(); uint8_t reset = nondet_bool(); vf_msg_set_reset(&the_msg, reset);
   m_has_hbi = 1; m_hbi = nondet_i32(); VF_ASSUME(m_hbi >= 1 && m_hbi <= 3600);
   m_has_pd = 0; m_has_st = 1; m_st = 1000; m_has_ost = 0;
-  uint8_t d[ND]; for (int i = 0; i < ND; i++) { d[i] = nondet_u8(); VF_ASSUME(d[i] >= '0' && d[i] <= '9'); }
-  VF_ASSUME(digits_value(d) <= 0xffffffffULL); uint32_t seq = (uint32_t)digits_value(d); uint8_t raw[16]; uint32_t rawn = raw_seq(raw, d);
+  uint32_t seq = nondet_u32(); uint8_t raw[12]; uint32_t rawn = raw_abs(raw, seq);
   cx_enforce = enforce; cx_auth = m_auth; cx_has_reset = m_has_reset; cx_reset = reset; cx_silent = silent; cx_reliable = reliable; cx_seq = seq; cx_pre_recv = pre_recv; cx_pre_send = pre_send; cx_hbi = m_hbi;
 
   uint8_t ret = vf_process(SESS, raw, rawn);
@@ -73,6 +73,10 @@ int main(void)
   if (!m_auth && (!enforce || tci_ok)) { VF_ASSERT(state == st_session_terminated && shutdown && logon_reply == 0, "C23: failed authentication terminates the session"); VF_REACH(); }
 #else
   int mirror = str_eq(msg_t, MNT, own_s, NS) && str_eq(msg_s, MNS, own_t, NT);
+#ifdef KF_SID_NE
+  /* complement of the known-finding class: the reply's CompIDs mirror the identity or differ from it in both components */
+  VF_ASSUME(mirror || (!str_eq(msg_t, MNT, own_s, NS) && !str_eq(msg_s, MNS, own_t, NT)));
+#endif
   if (enforce && !mirror) {
     VF_ASSERT(state == st_session_terminated && shutdown, "C23: an initiator treats a Logon reply whose CompIDs do not mirror its identity as a mismatch and terminates (enforcement on)");
     VF_REACH();
